@@ -18,7 +18,7 @@ CLAIMED = {
                 note="Trusts the reference model bnpsim/models/text.py (plain int()/float()/split; cross-checked against the repo's example files in the self-test) and SimFS.",
                 tech=TECH + "store-model oracle (generated records) evaluated on every chunk-schedule-induced batch composition"),
     "C12": dict(engine="syncsim", cat="exploration", ref="§4 C12",
-                text="Seeded search over (genome of <= 4 contigs incl. prefix/underscore names, sequence of contig groups in any order with unknown/ignored names, chunking cut set, consumer pull pattern, PYTHONHASHSEED): conservation oracle — a completed evaluation delivered every input entry under its own contig in genome order, otherwise an error was raised. 21 library-driven consumers (compute single/tuple/dict, exhaustive for, writer, MultiStream, forbes/jaccard, left_join, bedGraph track stream, track arithmetic, ChromosomeSize-table route, get_data/get_track_stream).",
+                text="Seeded search over (genome of <= 4 contigs incl. prefix/underscore names, sequence of contig groups in any order with unknown/ignored names, chunking cut set, consumer pull pattern, PYTHONHASHSEED): conservation oracle — a completed evaluation delivered every input entry under its own contig in genome order, otherwise an error was raised. 16 library-driven consumers (compute single/tuple/dict, exhaustive for, mask sum, pileup data/index, bedGraph track data/sum, MultiStream exhaust/write, forbes/jaccard, left_join) are judged; two caller-driven ones (zip, early break) are reach probes.",
                 note="Judges only library-driven pulling (a caller's own zip/break is a reach probe). Reference for numeric consumers is the same public function on the per-contig dict route.",
                 tech=TECH + "contig-order x cut-set x consumer-pull-pattern schedule with sampled PYTHONHASHSEED per worker; entry-conservation oracle over the delivered history"),
     "C15": dict(engine="iosim", cat="fault_enumeration", ref="§4 C15",
